@@ -583,3 +583,59 @@ Definition c13_cfg_check (c : ccase) : bool :=
           end
       end
   end.
+
+(** *** Schedule stream: k handler threads, one validated single request each, driven by an explicit
+    schedule over the line-level interleaving model above (harness/props/c13.py, stream "linesched").
+    [hc_inputs]: the k request objects; [hc_obs]: per thread, the reply the implementation gave, and
+    (in every entry alike) the two "snapshot unchanged" flags taken after all threads finished. *)
+Record scase := mkSCase { sc_case : hcase; sc_sched : list nat }.
+
+Definition treq_of (f : form) (dm : option cid) (p : parse_outcome) : option treq :=
+  match p with
+  | PValue v => match validate_request f v with
+                | Valid m method params => Some (mkTReq dm m method params)
+                | Invalid _ => None
+                end
+  | _ => None
+  end.
+
+Fixpoint all_some {A} (l : list (option A)) : option (list A) :=
+  match l with
+  | [] => Some []
+  | Some a :: r => match all_some r with Some r' => Some (a :: r') | None => None end
+  | None :: _ => None
+  end.
+
+Definition thread_reply (rs : list (str * str)) (t : thread) : option oreply :=
+  match t_pc t with
+  | PDone (o, log) =>
+      Some (obs_reply rs (match o with
+                          | None => Ok (REmpty, log)
+                          | Some x => if dumpable x then Ok (ROne x, log) else Raise EType
+                          end))
+  | _ => None
+  end.
+
+Definition c13_sched_check (sc : scase) : bool :=
+  let c := sc_case sc in
+  let '(h0, srv) := hcase_heap c in
+  match read_form h0 srv with
+  | Raise _ => false
+  | Ok f =>
+      match all_some (map (treq_of f (hc_dm c)) (hc_inputs c)) with
+      | None => false
+      | Some reqs =>
+          let hs := mkHS srv (hc_reg c) false in
+          let k := length reqs in
+          (* the executed schedule, then enough round-robin turns for every thread to finish (6 labels) *)
+          let tail := concat (repeat (seq 0 k) 6) in
+          let s := run_sched (body_of (hc_table c)) (sigs_of (hc_table c)) hs (sc_sched sc ++ tail)
+                             (mkCS h0 (init_threads reqs)) in
+          let fs := snap_eqb (snapshot (cs_heap s) srv) (snapshot h0 srv) in
+          let fd := snap_eqb (snapshot (cs_heap s) default_loc) (snapshot h0 default_loc) in
+          match all_some (map (thread_reply (raisers (hc_table c))) (cs_threads s)) with
+          | Some rs => list_eqb obs3_eqb (map (fun r => (r, fs, fd)) rs) (hc_obs c)
+          | None => false
+          end
+      end
+  end.
